@@ -31,3 +31,9 @@ TRUSTED = [
 ]
 ASSUMPTIONS = []
 EXPLANATION = ""
+
+MANIFEST = {
+    "text": "Unbounded proof by function contracts and DFCC loop contracts on the real directive handlers (any operand count, all values, both byte orders); Memory page list bounded stand-in reported separately.",
+    "note": "Token reader and expression evaluator are replaced by their contracts; composition over a whole program is argued in DESIGN.md, not mechanised. See evidence trusted_base/assumptions.",
+    "technique": "CBMC function contracts + DFCC loop contracts (ghost witness projection) on core/directives_data.cpp",
+}
